@@ -855,7 +855,7 @@ Theorem roundtrip_zrle ch s x y w h tgt ts fresh :
   0 <= x -> 0 <= y -> 0 <= w -> 0 <= h -> x + w <= c_w s -> y + h <= c_h s ->
   rows_wf w h tgt -> Forall (Forall (cp_ok (variant_of s))) tgt ->
   zs_ready c_zrlez c_zlibz s -> fresh = zrle_fresh s ->
-  let minsz := w * h * rbytes (variant_of s) * 2 + 4 in
+  let minsz := (if fixed s 12 then zrle_bound w h (rbytes (variant_of s)) else w * h * rbytes (variant_of s) * 2) + 4 in
   let cap := if c_rawsz s <? minsz then minsz else c_rawsz s in
   (* the scratch area must hold the tile stream: known finding C07-F2 when it does not *)
   zlen (tiles_rows ch 0 (c_fmt s) false 64 (Z.to_nat (h / 64 + 1)) 0 w h tgt 0 []) <= cap - 4 ->
